@@ -463,6 +463,14 @@ class SynthSkipped(SynthBase):
         self._body()
 
 
+class SynthSkippedEmpty(SynthBase):
+    """The reason of a skip is data the model abstracts from: an empty one must behave like any other."""
+
+    @testtools.skip("")
+    def test_body(self):
+        self._body()
+
+
 # ---------------------------------------------------------------------------------------------
 # result flavours
 
@@ -562,8 +570,9 @@ def make_result(flavour, env):
 
 
 def project_events(flavour, res):
-    """-> (names, outcome) in the vocabulary of the spec."""
+    """-> (names, outcome, outs) in the vocabulary of the spec; outs = every outcome reported, in order."""
     names = []
+    outs = []
     outcome = "none"
     if flavour == "stream":
         for ev in res._sink._events:
@@ -575,7 +584,8 @@ def project_events(flavour, res):
             elif status is not None:
                 names.append("outcome")
                 outcome = STREAM_OUT.get(status, "other:%s" % status)
-        return names, outcome
+                outs.append(outcome)
+        return names, outcome, outs
     for ev in res._events:
         n = ev[0]
         if n in ("startTest", "stopTest"):
@@ -583,11 +593,12 @@ def project_events(flavour, res):
         elif n in OUTCOME_OF:
             names.append("outcome")
             outcome = OUTCOME_OF[n]
+            outs.append(outcome)
         elif n in ("startTestRun", "stopTestRun", "tags", "time", "progress"):
             continue
         else:
             names.append("other:%s" % n)
-    return names, outcome
+    return names, outcome, outs
 
 
 def run_program(prog, flavour):
@@ -609,7 +620,7 @@ def _run(case, env, flavour):
             case.run(res)
     except BaseException as ex:
         prop = PROP.get(type(ex), "other:%s" % type(ex).__name__)
-    names, outcome = project_events(flavour, res)
+    names, outcome, outs = project_events(flavour, res)
     ok = "na"
     if flavour == "tt":
         ok = "true" if res.wasSuccessful() else "false"
@@ -617,6 +628,7 @@ def _run(case, env, flavour):
         "name": flavour,
         "names": names,
         "outcome": outcome,
+        "outs": outs,
         "prop": prop,
         "hasStop": flavour != "stream",
         "ok": ok,
